@@ -442,6 +442,7 @@ pub fn generate(prop: &str, seed: u64) -> Scenario {
             scn
         }
         "C14" => gen_c14(seed, r),
+        "C14enum" => gen_c14_enum(seed),
         "C15" => gen_c15(seed, r),
         _ => {
             let mut scn = base(seed, r, 300, 3, &Src::ALL_FINITE);
@@ -631,6 +632,97 @@ fn gen_c10(seed: u64, r: &mut Rng) -> Scenario {
     scn
 }
 
+/// Every fault site of a scenario: each (chain closure, element) call of the reference evaluation, each step
+/// of each inner flat_map iterator, each clone of the source adaptor, each terminal closure invocation.
+pub fn all_fault_sites(scn: &Scenario, rf: &crate::reference::Ref) -> Vec<Fault> {
+    let mut sites: Vec<Fault> = vec![];
+    for c in &rf.calls {
+        if c.0 > INNER {
+            sites.push(Fault { stage: c.0, trigger: Trigger::Arg(crate::closures::inner_fault_arg(c.1, c.2)) });
+        } else {
+            sites.push(Fault { stage: c.0, trigger: Trigger::Arg(c.1) });
+        }
+    }
+    if scn.src == Src::SliceCloned {
+        for id in &rf.clones {
+            sites.push(Fault { stage: STAGE_CLONE, trigger: Trigger::Arg(*id) });
+        }
+    }
+    let nfin = rf.finals.len();
+    match &scn.term {
+        Term::Find(_) | Term::Any(_) | Term::All(_) | Term::FindWithIndex(_) => {
+            for f in &rf.finals {
+                sites.push(Fault { stage: STAGE_PRED, trigger: Trigger::Arg(f.1.id) });
+            }
+        }
+        Term::ForEach => {
+            for f in &rf.finals {
+                sites.push(Fault { stage: STAGE_EACH, trigger: Trigger::Arg(f.1.id) });
+            }
+        }
+        Term::Reduce(_) | Term::Fold(_) | Term::Sum => {
+            for k in 0..nfin.saturating_sub(1) {
+                sites.push(Fault { stage: STAGE_RED, trigger: Trigger::Nth(k as u32) });
+            }
+        }
+        Term::MinBy(_) | Term::MaxBy(_) => {
+            for k in 0..nfin.saturating_sub(1) {
+                sites.push(Fault { stage: STAGE_CMP, trigger: Trigger::Nth(k as u32) });
+            }
+        }
+        Term::MinByKey(_) | Term::MaxByKey(_) => {
+            for k in 0..2 * nfin.saturating_sub(1) {
+                sites.push(Fault { stage: STAGE_KEY, trigger: Trigger::Nth(k as u32) });
+            }
+        }
+        _ => {}
+    }
+    if let Term::Fold(_) = &scn.term {
+        if nfin == 0 {
+            sites.push(Fault { stage: STAGE_IDENT, trigger: Trigger::Nth(0) });
+        }
+    }
+    sites
+}
+
+/// number of consecutive seeds that share one fault-free scenario in the enumeration mode
+pub const C14_ENUM_BLOCK: u64 = 256;
+
+/// Enumeration mode: seeds k*256 .. k*256+255 share one small scenario (input length <= 24) and walk through
+/// its complete list of fault sites (wrapping around), each under its own schedule.
+fn gen_c14_enum(seed: u64) -> Scenario {
+    let block = seed / C14_ENUM_BLOCK;
+    let idx = (seed % C14_ENUM_BLOCK) as usize;
+    let mut r = Rng::stream(block, 0xE14);
+    let r = &mut r;
+    let mut scn = base(block, r, 24, 3, &Src::ALL_FINITE);
+    scn.seed = seed;
+    scn.term = gen_any_term(r, &scn);
+    fit_depth(&mut scn);
+    refresh_pred(r, &mut scn);
+    let rf = reference(&scn);
+    let sites = all_fault_sites(&scn, &rf);
+    // the schedule, the policy and the parallelism knob vary with the seed, the workload does not
+    let mut r2 = Rng::stream(seed, 0xE15);
+    let (policy, noise, release) = gen_policy(&mut r2);
+    scn.policy = policy;
+    scn.noise = noise;
+    scn.starve_release = release;
+    scn.avail = gen_avail(&mut r2);
+    scn.sched_seed = mix(seed, 0x5C4E, 2);
+    if !sites.is_empty() {
+        scn.faults.push(sites[idx % sites.len()]);
+        // second round through the list: add a second fault, so that pairs are visited too
+        if idx >= sites.len() && sites.len() > 1 {
+            let j = (idx / sites.len() * 7 + idx) % sites.len();
+            if sites[j] != scn.faults[0] {
+                scn.faults.push(sites[j]);
+            }
+        }
+    }
+    scn
+}
+
 fn gen_c14(seed: u64, r: &mut Rng) -> Scenario {
     let mut scn = base(seed, r, 64, 3, &Src::ALL_FINITE);
     if r.chance(2, 3) {
@@ -642,53 +734,26 @@ fn gen_c14(seed: u64, r: &mut Rng) -> Scenario {
     fit_depth(&mut scn);
     refresh_pred(r, &mut scn);
     let rf = reference(&scn);
+    let sites = all_fault_sites(&scn, &rf);
+    if sites.is_empty() {
+        return scn;
+    }
     let nfaults = if r.chance(1, 6) { 2 } else { 1 };
+    // terminal closures are few compared with chain closures: give them a third of the picks
+    let term_sites: Vec<Fault> = sites.iter().copied().filter(|f| f.stage >= STAGE_PRED && f.stage < INNER).collect();
     for _ in 0..nfaults {
-        // candidate fault sites: chain closure calls (with their element), inner iterator steps, clones,
-        // terminal closures
-        let mut sites: Vec<Fault> = vec![];
-        if !rf.calls.is_empty() {
-            for _ in 0..3 {
-                let c = rf.calls[r.below(rf.calls.len())];
-                if c.0 > INNER {
-                    sites.push(Fault { stage: c.0, trigger: Trigger::Arg(crate::closures::inner_fault_arg(c.1, c.2)) });
-                } else {
-                    sites.push(Fault { stage: c.0, trigger: Trigger::Arg(c.1) });
-                }
-            }
-            let c = rf.calls[r.below(rf.calls.len())];
-            sites.push(Fault { stage: c.0, trigger: Trigger::Nth(r.below(rf.calls.len().min(12)) as u32) });
+        let ft = if !term_sites.is_empty() && r.chance(1, 3) {
+            term_sites[r.below(term_sites.len())]
+        } else if r.chance(1, 8) {
+            // the k-th invocation of a stage, whichever element that is under the schedule
+            let c = sites[r.below(sites.len())];
+            Fault { stage: c.stage, trigger: Trigger::Nth(r.below(sites.len().min(12)) as u32) }
+        } else {
+            sites[r.below(sites.len())]
+        };
+        if !scn.faults.contains(&ft) {
+            scn.faults.push(ft);
         }
-        if scn.src == Src::SliceCloned && !rf.clones.is_empty() {
-            sites.push(Fault { stage: STAGE_CLONE, trigger: Trigger::Arg(rf.clones[r.below(rf.clones.len())]) });
-        }
-        let nfin = rf.finals.len();
-        if nfin > 0 {
-            let fid = rf.finals[r.below(nfin)].1.id;
-            let term_sites: Vec<Fault> = match &scn.term {
-                Term::Find(_) | Term::Any(_) | Term::All(_) | Term::FindWithIndex(_) => vec![Fault { stage: STAGE_PRED, trigger: Trigger::Arg(fid) }],
-                Term::ForEach => vec![Fault { stage: STAGE_EACH, trigger: Trigger::Arg(fid) }],
-                Term::Reduce(_) | Term::Fold(_) | Term::Sum => vec![Fault { stage: STAGE_RED, trigger: Trigger::Nth(r.below(nfin) as u32) }],
-                Term::MinBy(_) | Term::MaxBy(_) => vec![Fault { stage: STAGE_CMP, trigger: Trigger::Nth(r.below(nfin) as u32) }],
-                Term::MinByKey(_) | Term::MaxByKey(_) => vec![Fault { stage: STAGE_KEY, trigger: Trigger::Nth(r.below(2 * nfin) as u32) }],
-                _ => vec![],
-            };
-            // terminal closures are fewer: weight them up
-            for t in term_sites {
-                sites.push(t);
-                sites.push(t);
-            }
-        }
-        if let Term::Fold(_) = &scn.term {
-            if nfin == 0 {
-                sites.push(Fault { stage: STAGE_IDENT, trigger: Trigger::Nth(0) });
-            }
-        }
-        if sites.is_empty() {
-            break;
-        }
-        let ft = sites[r.below(sites.len())];
-        scn.faults.push(ft);
     }
     scn
 }
